@@ -1,0 +1,18 @@
+//go:build !verif
+
+// Package verifhook is a set of empty stubs unless built with the "verif" tag.
+package verifhook
+
+// Handler is unused without the verif tag.
+type Handler struct {
+	Point func(name string, client int)
+	Stage func(name string)
+}
+
+// Enabled reports whether hooks are compiled in.
+const Enabled = false
+
+func Register(dir string, h *Handler)    {}
+func Unregister(dir string)              {}
+func Point(dir, name string, client int) {}
+func Stage(dir, name string)             {}
